@@ -6,6 +6,7 @@ package mempool
 //@ func Item.GetID
 //@   pure
 //@   opt uf item_id
+//@   opt strinj yes
 //@ func Item.GetSponsor
 //@   pure
 //@ func Item.Size
